@@ -8,8 +8,13 @@
    Shared with Model/Reads.v (database-independent list functions and the payload format only):
    rview / mkView / v_404 / v_400, query, sort_rows (insertion sort of rows), uniq_adj (drop adjacent
    duplicates), jrow / group_rows (GROUP BY key, class with SUM and COUNT DISTINCT), CT_ALL,
-   CT_UNKNOWN, is_untyped, oz (None = -1). *)
+   CT_UNKNOWN, is_untyped, oz (None = -1).
+
+   Traits and resource classes: the abstract state holds the custom names clients created and did not
+   delete; the standard ones (tokens below n_std_traits / n_std_rc) always exist.  A trait is
+   "associated" when some provider carries it. *)
 From PV Require Export Model.Reads.
+From PV Require Import Model.Names.
 
 (* ---------------------------------------------------------------- abstract state *)
 Record aprov := mkAprov {
@@ -20,7 +25,10 @@ Record aprov := mkAprov {
 Record acons := mkAcons {
   k_uuid : Z; k_proj : Z; k_user : Z; k_type : option Z; k_gen : Z;
   k_allocs : list (Z * Z * Z) }.    (* (provider, class, amount) *)
-Record astate := mkAstate { as_provs : list aprov; as_conss : list acons }.
+Record astate := mkAstate {
+  as_provs : list aprov; as_conss : list acons;
+  as_traits : list Z;               (* custom trait names *)
+  as_classes : list Z }.            (* custom resource class names *)
 
 (* ---------------------------------------------------------------- abstraction of a database *)
 Definition abs_prov (d : db) (r : rp) : aprov :=
@@ -32,7 +40,7 @@ Definition abs_cons (d : db) (k : consumer) : acons :=
   mkAcons (c_uuid k) (c_proj k) (c_user k) (c_type k) (c_gen k)
     (map (fun a => (a_rp a, a_rc a, a_used a)) (filter (fun a => a_cons a =? c_uuid k) (allocs d))).
 Definition abs (d : db) : astate :=
-  mkAstate (map (abs_prov d) (rps d)) (map (abs_cons d) (consumers d)).
+  mkAstate (map (abs_prov d) (rps d)) (map (abs_cons d) (consumers d)) (traits d) (map snd (rcs d)).
 
 (* ---------------------------------------------------------------- derived notions *)
 Definition s_prov (s : astate) (u : Z) : option aprov := find (fun p => p_uuid p =? u) (as_provs s).
@@ -164,6 +172,38 @@ Definition sp_usages (s : astate) (v p : Z) (user : option Z) (ct : option Z) : 
         else mkView 200 [] (group_rows true (s_join s p user (fun ty => oeqb ty (Some t)) (fun _ => t)))
     end.
 
+(* ---------------------------------------------------------------- traits and classes *)
+Definition s_trait_exists (s : astate) (t : Z) : bool := is_std_trait t || memZ t (as_traits s).
+(* some provider carries trait t *)
+Definition s_associated (s : astate) (t : Z) : bool := existsb (fun p => memZ t (p_traits p)) (as_provs s).
+(* every existing trait, once *)
+Definition s_all_traits (s : astate) : list Z := zseq (Z.to_nat n_std_traits) 0 ++ as_traits s.
+
+(* GET /traits (from 1.6): a trait is listed iff it exists, is one of the names asked for (name=in:..)
+   and is / is not carried by some provider (associated=true / false) *)
+Definition sp_traits (s : astate) (v : Z) (names : option (list Z)) (assoc : option bool) : rview :=
+  if v <? 6 then v_404 else
+  mkView 200 []
+    (sort_rows (map (fun t => [t])
+       (filter (fun t => match names with Some ns => memZ t ns | None => true end &&
+                         match assoc with Some b => Bool.eqb (s_associated s t) b | None => true end)
+               (s_all_traits s)))).
+
+(* GET /traits/{t} (from 1.6): 204 iff the trait exists *)
+Definition sp_trait (s : astate) (v t : Z) : rview :=
+  if v <? 6 then v_404 else if s_trait_exists s t then mkView 204 [] [] else v_404.
+
+Definition s_class_exists (s : astate) (n : Z) : bool := is_std_rc_name n || memZ n (as_classes s).
+
+(* GET /resource_classes (from 1.2): the standard classes and the custom ones *)
+Definition sp_classes (s : astate) (v : Z) : rview :=
+  if v <? 2 then v_404 else
+  mkView 200 [] (sort_rows (map (fun n => [n]) (zseq (Z.to_nat n_std_rc) 0 ++ as_classes s))).
+
+(* GET /resource_classes/{n} (from 1.2): its name iff the class exists *)
+Definition sp_class (s : astate) (v n : Z) : rview :=
+  if v <? 2 then v_404 else if s_class_exists s n then mkView 200 [n] [] else v_404.
+
 Definition spec_view (q : query) (v : Z) (s : astate) : rview :=
   match q with
   | QRp u => sp_rp s v u
@@ -175,7 +215,19 @@ Definition spec_view (q : query) (v : Z) (s : astate) : rview :=
   | QRpAggs u => sp_rp_aggs s v u
   | QConsAllocs c => sp_cons_allocs s v c
   | QUsages p user ct => sp_usages s v p user ct
+  | QTraits names assoc => sp_traits s v names assoc
+  | QTrait t => sp_trait s v t
+  | QClasses => sp_classes s v
+  | QClass n => sp_class s v n
   end.
+
+(* the unique constraint on traits.name as the model sees it: the custom rows are pairwise distinct and
+   none of them carries a standard name (C11_traits_unique: holds in every state the API can produce).
+   Needed by the refinement of GET /traits?associated=true only (JOIN .. DISTINCT lists a name once) *)
+Definition traits_unique (d : db) : Prop :=
+  NoDup (traits d) /\ forall t, In t (traits d) -> is_std_trait t = false.
+Definition needs_unique_traits (q : query) : bool :=
+  match q with QTraits _ (Some true) => true | _ => false end.
 
 (* ---------------------------------------------------------------- reading amounts off a payload *)
 (* total amount of class rc on provider u in the rows [provider; generation; class; amount] of a
